@@ -42,6 +42,7 @@ SmokeTerms == {
   TStruct(9, <<TNil(1), TUnsafe(3, TInt(2, 2))>>, <<TRUE, FALSE>>),
   TPtrTo(10, TStruct(9, <<TInt(1, 1)>>, <<FALSE>>)), TPtrTo(10, TSlice(9, <<TStr(1, P(1))>>)), TNilPtr(1),
   TUnsafe(10, TSlice(9, <<TSafe(2, TStr(1, P(1)))>>)), TSafe(10, TSlice(9, <<TStr(1, P(1)), TInt(2, 2)>>)),
+  TSStr(1, P(1)), TSStr(1, StartM \o <<A>>), TComplex(1), TSafe(2, TComplex(1)), TSlice(9, <<TComplex(1), TSStr(2, P(2))>>), TUnsafe(2, TSStr(1, P(1))),
   TRValue(5, TStr(1, P(1))), TRValue(5, TInt(1, 9)), TRValue(5, TNil(1)), TInvalidRV(5), TRValue(5, TSafe(2, TStr(1, P(1)))), TRValue(5, TUnsafe(2, TInt(1, 3))),
   TRValue(5, TRStr(1, StartM \o <<A>> \o EndM)), TRValue(5, Obj(1, {"SF"})), TRValue(5, Obj(1, {"ST", "SV"})), TRValue(5, Obj(1, {"REG"})), TRValue(5, Obj(1, {"ER", "NILP"})),
   TRValue(5, TStruct(9, <<TInt(1, 1), TSafe(3, TStr(2, P(2)))>>, <<FALSE, TRUE>>)), TRValue(5, TPtrTo(10, TStruct(9, <<TInt(1, 1)>>, <<FALSE>>))),
@@ -64,6 +65,7 @@ SmokeFormats == {Fv, Fs, Fd, FplusV, FsharpV, F5v, FT, Fq, Fw, LitF(<<A, 32>>, F
 SmokeRoots == SmokeTerms
 SmokeExpand(t) == {Case("Sprintf", f, <<t>>, <<>>) : f \in SmokeFormats}
                   \cup {Case("Sprint", <<>>, <<t>>, <<>>), Case("Sprint", <<>>, <<TInt(90, 1), t, TStr(91, P(91)), t>>, <<>>),
+                        Case("Sprintln", <<>>, <<t, TInt(90, 1), t>>, <<>>), Case("Sprintln", <<>>, <<>>, <<>>),
                         Case("Sprintf", Fv, <<t, t>>, <<>>), Case("Sprintf", <<A>>, <<t>>, <<>>), Case("Errorf", Fw \o Fw, <<t, t>>, <<>>),
                         Case("Errorf", Fw, <<t>>, <<>>), Case("Errorf", <<A>> \o Fv, <<t>>, <<>>)}
 
@@ -88,12 +90,13 @@ Leaf(kind, i) == CASE kind = "ustr" -> UStr(i) [] kind = "uint" -> UInt(i) [] ki
                    [] kind = "st" -> StObj(i) [] kind = "er" -> ErObj(i) [] kind = "nil" -> TNil(i)
                    [] kind = "safestr" -> SafeStr(i) [] kind = "safeint" -> SafeInt(i)
                    [] kind = "bool" -> TBool(i) [] kind = "float" -> TFloat(i) [] kind = "svsf" -> SVSF(i)
+                   [] kind = "sstr" -> TSStr(i, P(i)) [] kind = "complex" -> TComplex(i)
                    [] kind = "rstr" -> TRStr(i, P(i)) [] kind = "gs" -> TObj(i, {"GS", "ST"}, <<>>, <<>>, P(i), <<>>)
                    [] kind = "rv" -> TRValue(i, UStr(i + 1)) [] kind = "rvsv" -> TRValue(i, SVStr(i + 1))
                    [] kind = "rvsafe" -> TRValue(i, SafeStr(i + 1)) [] kind = "rvslice" -> TRValue(i, TSlice(i + 1, <<UStr(i + 2), SVObj(i + 3)>>))
 LeafKinds  == {"ustr", "uint", "sv", "svstr", "reg", "sm", "st", "er", "nil", "safestr", "safeint", "bool", "float", "svsf",
-               "rv", "rvsv", "rvsafe", "rvslice", "rstr", "gs"}
-QLeafKinds == {"ustr", "uint", "sv", "svstr", "reg", "nil", "safestr", "st", "svsf", "rvsv", "rstr", "gs"}
+               "rv", "rvsv", "rvsafe", "rvslice", "rstr", "gs", "sstr", "complex"}
+QLeafKinds == {"ustr", "uint", "sv", "svstr", "reg", "nil", "safestr", "st", "svsf", "rvsv", "rstr", "gs", "sstr", "complex"}
 
 \* container shapes around two leaves a (ids 10..) and b (ids 20..); container ids 30..
 Shape(sh, a, b) ==
@@ -130,7 +133,7 @@ ClsExpand(r) ==
   IN UNION {
        LET ts == Shape(r.sh, Leaf(r.ka, 10), Leaf(kb, 20)) IN
          {Case("Sprintf", IF Len(ts) = 2 THEN TwoFmt(f) ELSE Around(f), ts, <<>>) : f \in fmts}
-         \cup {Case("Sprint", <<>>, ts, <<>>)}
+         \cup {Case("Sprint", <<>>, ts, <<>>), Case("Sprintln", <<>>, ts, <<>>)}
        : kb \in kbs }
 
 \* ---- slice "wrap" (C06): Unsafe(x) / Safe(x) / nestings around every kind of x
@@ -347,6 +350,7 @@ Next == lvl = 0 /\ lvl' = 1 /\ root' = root /\ c' \in Expand(root)
 Spec == Init /\ [][Next]_allvars
 
 Run(k) == CASE k.e = "Sprintf"  -> Sprintf(k.f, k.ts)
+            [] k.e = "Sprintln" -> Sprintln(k.ts)
             [] k.e = "Sprint"   -> Sprint(k.ts)
             [] k.e = "Errorf"   -> Errorf(k.f, k.ts)
             [] k.e = "Sprintfn" -> Sprintfn(k.scr)
